@@ -45,7 +45,18 @@ def catalog(tier="quick"):
     # reset/step are the wrapped object's, not the innermost raw environment's)
     c["Snake.KeyFolded"] = lambda: _key_folded(E.Snake(num_rows=4, num_cols=5, time_limit=tl))
     c["Maze.ObsShifted"] = lambda: _obs_shifted(E.Maze(time_limit=tl))
+    # a wrapped environment that emits MID timesteps with discount 0: Connector behind MultiToSingleWrapper with the MIN
+    # of the per-agent discounts (zero as soon as one agent is connected or blocked, long before the episode ends)
+    c["Connector.M2SMin"] = lambda: _m2s_min(E.Connector(time_limit=12))
     return c
+
+
+def _m2s_min(env):
+    import jax.numpy as jnp
+
+    from jumanji.wrappers import MultiToSingleWrapper
+
+    return MultiToSingleWrapper(env, discount_aggregator=jnp.min)
 
 
 def _key_folded(env):
